@@ -21,8 +21,10 @@ def run(ctx, res):
         "of a &source[..] slice is BB; R2 in every Token literal and in the merge step the slice bounds of `value` are the same "
         "expressions as byte_start/byte_end (an open upper bound pairs with source.len()), byte and char cursors are updated in "
         "tandem; R3 start/end receive only character counts; R4 Token literals occur only in tokenizer.rs and tokenize returns (R5: every fresh entry into the start-delimiter state emits a token boundary, Element boundaries only after a completely matched end delimiter) "
-        "the adjacent-Text merge of the scanned tokens.  Decides the consistency and boundary-ness of the two offset systems - "
-        "not contiguity / coverage / non-emptiness as arithmetic facts about the fold.")
+        "the adjacent-Text merge of the scanned tokens; R6 non-emptiness in its structural part: a token cut inside the scan is "
+        "`&source[a..b]` under guards from which a < b follows, and the token that runs to the end of the source starts at a visited "
+        "position and is built only when the source has a last character.  Decides the consistency and boundary-ness of the two "
+        "offset systems - not contiguity / coverage as arithmetic facts about the fold.")
     res.trusted += ["char_indices yields char-boundary byte positions in increasing order", "driver fact extraction"]
     spec = load_units_spec(ctx)
     b = P.fn("tokenizer::tokenize")
@@ -181,12 +183,78 @@ def run(ctx, res):
         if not any(any(x is r for x in T.nodes(c["body"])) for c in clos):
             res.add(Finding("C07.R4", fn, "early-return:" + T.render(r)[:60], "tokenize returns early with `%s`, bypassing the adjacent-Text merge" % T.render(r)[:80], loc=T.loc(r)))
     token_boundaries(ctx, res, "C07.R5")
+    non_empty_tokens(ctx, res, "C07.R6")
     # the char counter idiom
     cur = [k for k, v in res.extra["units_env"].items() if v == U.CH]
     if "current" in cur or cur:
         res.holds("C07.R3", fn, "char-counter", "counter(s) %s advance by literal 1 once per char_indices item" % cur)
     else:
         res.add(Finding("C07.R3", fn, "char-counter", "no character counter advancing by exactly 1 per character was found", loc=T.loc(b["tree"])))
+
+
+def non_empty_tokens(ctx, res, rule):
+    """Non-emptiness, the part that is visible in the shape of the code: a token cut inside the scan is `&source[a..b]` under
+    a guard from which a < b follows (difference-constraint prover over the dominating conditions); the token that runs to
+    the end of the source starts at a position the scan visited (0 or a char_indices position - premise of C01) and is
+    built only when the source has a last character."""
+    from .. import oblig
+    from . import c01_premises
+    P = ctx.lib
+    b = P.fn("tokenizer::tokenize")
+    fn = fshort(b)
+    w = oblig.Walker(P, b, {})
+    obs = w.run()
+    by_node = {id(o["node"]): o for o in obs if o["kind"] in ("slice-str", "slice")}
+    sites = 0
+    for n, parents in T.walk(b["tree"]):
+        if n.get("k") != "struct" or not T.strip_generics(n["res"].get("path") or "").endswith("tokenizer::Token"):
+            continue
+        f = {x["name"]: x["e"] for x in n["fields"]}
+        v = T.peel_ref(f.get("value") or {})
+        if not (v.get("k") == "index" and T.peel(v["idx"]).get("k") == "struct"):
+            continue            # reported by R2
+        rf = {x["name"]: x["e"] for x in T.peel(v["idx"])["fields"]}
+        site = "non-empty:%s" % T.render(v)[:70]
+        sites += 1
+        if "end" in rf:
+            lo = oblig.term(rf["start"]) if "start" in rf else ("0", 0)
+            hi = oblig.term(rf["end"])
+            o = by_node.get(id(v))
+            if o is None or lo is None or hi is None:
+                res.cannot(rule, fn, site, "the slice was not reached by the guard walker", T.loc(v))
+            elif oblig.Prover(o["facts"]).entails(oblig.lt(lo, hi)):
+                res.holds(rule, fn, site, "dominating guards give %s < %s" % (T.render(rf.get("start") or {"k": "lit", "v": [0]}), T.render(rf["end"])))
+            else:
+                res.add(Finding(rule, fn, site, "a token is cut from `%s` without a dominating guard from which start < end follows: an empty "
+                                "token can be emitted (e.g. between two adjacent tags)" % T.render(v), loc=T.loc(v)))
+        else:
+            ok, why = c01_premises.tok_byte_start_assign(ctx)
+            # dominated by `Some(..)` of source.char_indices().last() / chars().last() / a non-emptiness test of the source
+            dom = False
+            for par in parents:
+                if par.get("k") == "match":
+                    sc = T.peel(par["scrut"])
+                    if sc.get("k") == "path" and T.local_of(sc) is not None:
+                        lets = [s_ for s_ in T.nodes(b["tree"], "let") if s_["pat"].get("p") == "bind" and s_["pat"]["id"] == T.local_of(sc) and s_.get("init") is not None]
+                        sc = T.peel(lets[0]["init"]) if len(lets) == 1 else sc
+                    if T.render(sc) in ("source.char_indices().last()", "source.chars().last()", "source.chars().next()", "source.char_indices().next()"):
+                        arm = [a for a in par["arms"] if any(x is n for x in T.nodes(a["body"]))]
+                        if len(arm) == 1 and T.rpat(arm[0]["pat"]).startswith("Some("):
+                            dom = True
+                if par.get("k") == "if" and T.render(par["cond"]) in ("!source.is_empty()", "(source.len() > 0)") and any(x is n for x in T.nodes(par["then"])):
+                    dom = True
+            o = by_node.get(id(v))
+            sp = oblig.place(v["base"])
+            if o is not None and sp is not None and oblig.Prover(o["facts"]).entails(oblig.lt(("0", 0), ("len(%s)" % sp, 0))):
+                dom = True          # any dominating test from which `source` is non-empty follows
+            if ok and dom:
+                res.holds(rule, fn, site, "starts at a visited position (%s) and is built only when the source has a last character" % why)
+            elif not ok:
+                res.add(Finding(rule, fn, site, "the token that runs to the end of the source may be empty: " + why, loc=T.loc(v)))
+            else:
+                res.add(Finding(rule, fn, site, "the token that runs to the end of the source is built without a test that the source has a "
+                                "last character: an empty source would yield an empty token", loc=T.loc(v)))
+    res.floor(rule, "Token literals with a slice of the source as text", sites, 2)
 
 
 def token_boundaries(ctx, res, rule):
